@@ -231,7 +231,7 @@ def parse_blocks(text):
             lhs, rhs = t[1:k], t[k + 1:]
             res = rhs[0]
             if lhs[0] == "V":
-                cur["ops"].append(("V", int(lhs[1]), (" ".join(lhs[9:]), lhs[8]), res))
+                cur["ops"].append(("V", -1, (" ".join(lhs[9:]), lhs[8]), res))      # keyed by (name, signature code)
             elif lhs[0] in ("F", "U", "D"):
                 cur["ops"].append((lhs[0], int(lhs[1]), tuple(int(x) for x in lhs[2:]), res))
             elif lhs[0] == "skip":
@@ -265,10 +265,16 @@ def judge_block(b):
     if ids != list(range(len(ids))) or not b["order"]:
         out.append(("ids-not-monotone", "ids %s..." % ids[:8]))
     node_sort_is_bool = {}
-    exact, perm = {}, {}
+    exact, perm, spell = {}, {}, {}
     for (k, s, a, res) in b["ops"]:
         if k == "skip" or res == "exc":
             continue
+        if k == "V" and re.match(r"^-?\d+$", a[0]):
+            # stated gap: integer constants built from a string are keyed by the spelling (design/C28.md)
+            val = (int(a[0]), a[1])
+            if val in spell and spell[val][0] != a[0] and spell[val][1] != res:
+                notes["numeric-constant-spellings-two-ids (e.g. %s / %s)" % (spell[val][0], a[0])] = 1
+            spell.setdefault(val, (a[0], res))
         key = (k, s, a)
         if key in exact and exact[key] != res:
             out.append(("same-call-two-ids", "%s %s(%s) gave %s then %s" % (k, b["fsyms"].get(s, ("", ""))[1], " ".join(map(str, a)), exact[key], res)))
@@ -336,19 +342,26 @@ def run(ctx):
         mode = MODES[i % len(MODES)]
         g = Gen(ctx.rng, mode, ctx.rng.randint(12, 60))
         seqs.append((g.make(), "rng", g.repeats))
-    inp = "".join(s[0] + "\n" for s in seqs)
-    rc, out = vlib.sh([h], input=inp, timeout=3000)
-    if rc != 0:
-        ctx.tie_broken("harness-run", "rc=%s tail=%s" % (rc, out[-400:]))
-        return
-    blocks = parse_blocks(out)
-    rc2, mout = vlib.sh([exe], input=out, timeout=3000)
-    verd = [l.split() for l in mout.split("\n") if l.startswith("SEQ ")]
-    if rc2 != 0 or len(blocks) != len(seqs) or len(verd) != len(seqs):
-        ctx.tie_broken("replay-run", "model rc=%s; %d sequences, %d traces, %d verdicts; %s" % (rc2, len(seqs), len(blocks), len(verd), mout[-300:]))
-        return
     arith_variants = set()
     notes = {}
+    for lo in range(0, len(seqs), 2000):          # batches keep the trace text small
+        part = seqs[lo:lo + 2000]
+        inp = "".join(s[0] + "\n" for s in part)
+        rc, out = vlib.sh([h], input=inp, timeout=3000)
+        if rc != 0:
+            ctx.tie_broken("harness-run", "rc=%s tail=%s" % (rc, out[-400:]))
+            return
+        blocks = parse_blocks(out)
+        rc2, mout = vlib.sh([exe], input=out, timeout=3000)
+        verd = [l.split() for l in mout.split("\n") if l.startswith("SEQ ")]
+        if rc2 != 0 or len(blocks) != len(part) or len(verd) != len(part):
+            ctx.tie_broken("replay-run", "model rc=%s; %d sequences, %d traces, %d verdicts; %s" % (rc2, len(part), len(blocks), len(verd), mout[-300:]))
+            return
+        _judge_all(ctx, part, blocks, verd, arith_variants, notes)
+    _summarise(ctx, arith_variants, notes)
+
+
+def _judge_all(ctx, seqs, blocks, verd, arith_variants, notes):
     nviol = 0
     for (text, origin, nrep), b, v in zip(seqs, blocks, verd):
         vd = dict(x.split("=", 1) for x in v[3:])
@@ -377,12 +390,17 @@ def run(ctx):
             nviol += 1
             if kind == "permuted-two-ids":
                 sym = detail.split("|", 1)[1].split("(", 1)[0]
+                sym = {"A": "mkAnd", "O": "mkOr", "X": "mkXor", "E": "mkEq", "P": "mkPlus", "M": "mkTimes"}.get(sym, sym)
                 sig = "commutative-args-two-ids:%s:%s" % ("termsort-deep-tie" if explained == "deep" else "unexplained", sym)
             else:
                 sig = "%s:%s" % (kind, mode)
             ctx.violation(sig, "%s in mode %s: %s" % (kind, mode, detail),
                           dict(sequence=text, how="echo '<sequence>' | build/harness/h_hashcons   (OP lines: '-> id' is Pterm::getId of the result)",
                                detail=detail, model_verdict=" ".join(v[3:])))
+    ctx.extra["property_level_alarms_incl_known"] = ctx.extra.get("property_level_alarms_incl_known", 0) + nviol
+
+
+def _summarise(ctx, arith_variants, notes):
     if len(arith_variants) > 1:
         ctx.tie_broken("arith-comparison-variant", "some traces are reproduced only by LessThan_deepPTRef as in the source, others only by the tie-broken comparison")
     elif arith_variants:
@@ -394,4 +412,3 @@ def run(ctx):
         ctx.note("no trace distinguished SortDeep from SortDeepTie")
     for k2, c in sorted(notes.items()):
         ctx.note("%s: %d observations (stated gap, not a violation: see design/C28.md)" % (k2, c))
-    ctx.extra["property_level_alarms_incl_known"] = nviol
